@@ -16,7 +16,7 @@ RULE = ('rows = 16 scope-type declarations (none + every non-empty ordered subse
         'x do_raise x check allows/denies/depends on a role x rule overridden in the policy file or not (under its own name, or - for policies registered as renamed - under the deprecated old name) x registered as RuleDefault / DocumentedRuleDefault x rule by name / check object x '
         '4 credential representations (dict, RequestContext, to_policy_values mapping, that mapping with the `system` '
         'spelling added on top; the `system` spelling exists only for dicts and the last form); four more blocks flip '
-        'enforce_scope on a LIVING enforcer (on->off->on, off->on->off, ...) and re-run the table after each flip x role content irrelevant to the check. Non-trivial = scope types declared; distinct = distinct row.')
+        'enforce_scope on a LIVING enforcer (on->off->on, off->on->off, ...) and re-run the table after each flip x role content irrelevant to the check. Non-trivial = scope types declared; distinct = distinct row. Stratum `overlap`: two requests with differently scoped tokens on one enforcer at the same time (second one runs at sampled line boundaries of the first, deterministic scheduler), each decided as its row says.')
 ASSUMPTIONS = ['oslo.context RequestContext.to_policy_values is the conversion the statement means',
                'the check decision is made independent of roles by using @ / ! (registered default) and the opposite '
                'constant as file override, so that a gate reading the wrong rule is visible']
@@ -24,7 +24,7 @@ LEVEL_TEXT = ('The statement quantifies over a finite product; all of it (about 
               'enforcer - complete for the stated table.')
 LEVEL_NOTE = 'trusted: the reference function (token scope derivation + membership) transcribed from the statement'
 PLAN = {'quick': dict(shards=4, wall=90), 'thorough': dict(shards=8, wall=300)}
-MIN = {'option_flips_on_living_enforcer': 2, 'evaluations': 5000, 'gate_denied_rows': 500, 'allow_decisions': 500}
+MIN = {'overlapping_evaluations': 200, 'option_flips_on_living_enforcer': 2, 'evaluations': 5000, 'gate_denied_rows': 500, 'allow_decisions': 500}
 ANCHORS = ['oslo_policy.policy:Enforcer._enforce_scope', 'oslo_policy.policy:Enforcer.enforce',
            'oslo_policy.policy:Enforcer._map_context_attributes_into_creds']
 REQUIRED_ANCHORS = ['oslo_policy.policy:Enforcer.enforce']
@@ -176,6 +176,65 @@ def check_block(ctx, enforce_scope, override, flips=()):
         tree.cleanup()
 
 
+OVERLAPS = {'quick': 12, 'thorough': 200}
+
+
+def check_overlap(ctx, case):
+    """Two requests with differently scoped tokens enforce two scoped policies on one enforcer at the same time: each row is
+    decided as the table says (a scope computed for one request must never gate the other)."""
+    from oslo_policy import policy
+    from pv.mon import overlap
+    tree = files.Tree(dirs=())
+    try:
+        enf = policy.Enforcer(tree.conf(policy_dirs=[], enforce_scope=True))
+        filerules = {'unrelated': '@'}
+        for i, st in enumerate(DECLS):
+            for res in (True, False, 'role'):
+                nm = 'pol:%d_%s' % (i, res)
+                text = {True: '@', False: '!', 'role': 'role:admin'}[res]
+                opposite = {True: '!', False: '@', 'role': 'not role:admin'}[res]
+                enf.register_default(policy.RuleDefault(nm, opposite if case['override'] else text, scope_types=st))
+                if case['override']:
+                    filerules[nm] = text
+        tree.write(os.path.basename(tree.main), filerules, 'json')
+        enf.load_rules()
+        calls, want = [], []
+        for row in (case['a'], case['b']):
+            st = DECLS[row['decl']]
+            nm = 'pol:%d_%s' % (row['decl'], row['res'])
+            w = reference(st, check_value(row['res'], row['roles']), row['system'], row['domain'], row['project'], True, row['do_raise'])
+            want.append(['returned', w] if isinstance(w, bool) else ['raised', w])
+            calls.append((nm, {}, make_creds('dict', row['system'], row['domain'], row['project'], row['roles']), {'do_raise': row['do_raise']}))
+        ctx.case(['overlap', case['override'], case['a'], case['b']], True, 'overlap')
+        detail = {'override_in_file': case['override'], 'request_a': case['a'], 'request_b': case['b'], 'expected': want}
+
+        def mk(call):
+            def make():
+                nm, t, c, kw = call
+                c = dict(c, roles=list(c['roles']))
+                def run_():
+                    try:
+                        return ['returned', bool(enf.enforce(nm, {}, c, **kw))]
+                    except Exception as e:
+                        return ['raised', type(e).__name__]
+                return run_
+            return make
+        if overlap.pair(ctx, mk(calls[0]), mk(calls[1]), case, detail, ctx.sub_rnd('Ob', case['rseed'])):
+            got = [mk(calls[0])()(), mk(calls[1])()()]
+            if got != want:
+                ctx.violation('decision-differs-from-check', dict(case), dict(detail, observed=got))
+    finally:
+        tree.cleanup()
+
+
+def gen_overlap(ctx, i):
+    r = ctx.sub_rnd('O', ctx.tier, ctx.shard, i)
+    def row():
+        return dict(decl=r.randrange(1, len(DECLS)), res=r.choice([True, False, 'role']), system=r.choice(['none', 'system', 'system_scope']),
+                    domain=r.randint(0, 1), project=r.randint(0, 1), roles=r.choice(ROLESETS), do_raise=r.random() < 0.5)
+    return dict(overlap=True, override=r.random() < 0.5, a=row(), b=row(), rseed='%s.%d.%d' % (ctx.tier, ctx.shard, i))
+
+
 def run(ctx):
     blocks = [(es, ov, ()) for es, ov in itertools.product((True, False), (False, True))]
     # the option flipped on a living enforcer, both directions and back again
@@ -189,7 +248,19 @@ def run(ctx):
             break
         check_block(ctx, es, ov, flips)
     ctx.stratum('table', exhaustive=done)
+    # two overlapping requests, last (the line-level scheduler slows everything that runs after it is installed)
+    from pv.mon import sched
+    ctx.stratum('overlap', exhaustive=False)
+    try:
+        for i in range(OVERLAPS[ctx.tier]):
+            if ctx.expired():
+                break
+            check_overlap(ctx, gen_overlap(ctx, i))
+    finally:
+        sched.uninstall()
 
 
 def replay(ctx, case):
+    if case.get('overlap'):
+        return check_overlap(ctx, case)
     check_block(ctx, case['enforce_scope'], case['override'], tuple(case.get('flips', ())))
